@@ -365,3 +365,6 @@ def run(ctx):
     if n2 != len(shapes):
         raise core.Machinery("file mode emitted %d of %d shapes" % (n2, len(shapes)))
     ctx.extra["random_shapes_replayed"] = n2
+    # growth next to C01 / C02: the SQL-like selector Track.query (Query.tla)
+    from drivers import query_common
+    query_common.run(ctx, quick)
